@@ -74,6 +74,8 @@ def cases(tier, seed):
             out.append(("solvers", s))
     for s in (F.P_2X2, F.P_FLEX_3X2, F.P_ZERO):
         out.append(("metadata", s))
+    for s in F.P_HUGE:
+        out.append(("solvers", s))
     return out
 
 
@@ -164,6 +166,9 @@ def run_rules(res, spec, filters):
     def make_extra(inst, d):
         # observers of the observer-based rule are subscribed from the start,
         # and a twin dispatcher shares the module-level scorer
+        # the shared scorer is first used on a throw-away dispatcher of the same
+        # instance that is never advanced, then on the real one
+        R.observer_based_most_work_remaining_rule(impl.mk_dispatcher(inst, filters))
         R.observer_based_most_work_remaining_rule(d)
         twin = impl.mk_dispatcher(inst, filters)
         R.observer_based_most_work_remaining_rule(twin)
